@@ -1035,7 +1035,11 @@ walk_descents(cholmod_sparse *AtA_F,
 		int done = false;
 		pthread_mutex_lock(&mutex);
 		while (!done) {
-			pthread_cond_wait(&cv, &mutex);
+			/*
+			 * Look before waiting: the workers may all have finished
+			 * (and broadcast) before we got here, in which case
+			 * nobody is left to wake us.
+			 */
 			done = true;
 			for (j = 0; j < n_threads; j++) {
 				if (i*n_threads + j >= n_alpha)
@@ -1043,6 +1047,8 @@ walk_descents(cholmod_sparse *AtA_F,
 				if (descent_trials[j].state != WAIT)
 					done = false;
 			}
+			if (!done)
+				pthread_cond_wait(&cv, &mutex);
 		}
 		pthread_mutex_unlock(&mutex);
 
